@@ -18,6 +18,7 @@ import (
 	"os"
 	"sort"
 	"strconv"
+	"strings"
 	"testing"
 
 	"github.com/canopy-network/canopy/lib"
@@ -54,6 +55,20 @@ func verifScan(t *testing.T, s *Store) map[string]string {
 // verifLastScan: the state scanned at the end of the last verifApply
 var verifLastScan map[string]string
 
+// verifLastGets: a point read of every key the last verifApply ever touched (nil = not found / empty)
+var verifLastGets map[string][]byte
+
+// verifKey: the store key of a test key name. "key-007" is one component under "k/"; "key-007/c" is the same key followed
+// by a further component - its encoding has the encoding of "key-007" as a strict byte prefix (parent and child keys, as
+// the state machine's composite keys are)
+func verifKey(name string) []byte {
+	parts := [][]byte{[]byte("k/")}
+	for _, c := range strings.Split(name, "/") {
+		parts = append(parts, []byte(c))
+	}
+	return lib.JoinLenPrefix(parts...)
+}
+
 func verifApply(t *testing.T, blocks [][]verifOp) ([]byte, map[string]string) {
 	st, err := NewStoreInMemory(lib.NewNullLogger())
 	if err != nil {
@@ -72,9 +87,11 @@ func verifApply(t *testing.T, blocks [][]verifOp) ([]byte, map[string]string) {
 		snaps[s.Version()] = c
 	}
 	var root []byte
+	touched := map[string]bool{}
 	for _, blk := range blocks {
 		for _, op := range blk {
-			k := lib.JoinLenPrefix([]byte("k/"), []byte(op.Key))
+			k := verifKey(op.Key)
+			touched[op.Key] = true
 			if op.Val == "" {
 				if e := s.Delete(k); e != nil {
 					t.Fatal(e)
@@ -144,6 +161,14 @@ func verifApply(t *testing.T, blocks [][]verifOp) ([]byte, map[string]string) {
 		}
 	}
 	verifLastScan = verifScan(t, s)
+	verifLastGets = map[string][]byte{}
+	for name := range touched {
+		v, e := s.Get(verifKey(name))
+		if e != nil {
+			t.Fatal(e)
+		}
+		verifLastGets[name] = v
+	}
 	return root, final
 }
 
@@ -171,12 +196,25 @@ func TestVerifBoundedC08(t *testing.T) {
 		// two regimes: a densely populated tree, and a SPARSE one (a handful of leaves, so that whole subtrees hold
 		// one or two leaves next to their borders) that is then hit by blocks above the parallel threshold
 		sparse := h%2 == 1
+		// a third regime (every fourth history, dense): PARENT / CHILD keys - a key whose encoding is a strict byte prefix
+		// of another key's - drawn from a small pool so that both are often present and one of them gets deleted
+		nested := h%4 == 2
+		draw := func() string {
+			if !nested {
+				return fmt.Sprintf("key-%03d", rng.Intn(pool))
+			}
+			k := fmt.Sprintf("key-%03d", rng.Intn(24))
+			if rng.Intn(2) == 0 {
+				k += "/c"
+			}
+			return k
+		}
 		nFirst := 60 + rng.Intn(pool-60)
 		if sparse {
 			nFirst = 1 + rng.Intn(12)
 		}
 		for i := 0; i < nFirst; i++ {
-			k := fmt.Sprintf("key-%03d", rng.Intn(pool))
+			k := draw()
 			first = append(first, verifOp{k, fmt.Sprintf("v0-%d", rng.Intn(1000))})
 			present[k] = true
 		}
@@ -200,7 +238,7 @@ func TestVerifBoundedC08(t *testing.T) {
 				}
 			}
 			for i := len(blk); i < n; i++ {
-				k := fmt.Sprintf("key-%03d", rng.Intn(pool))
+				k := draw()
 				switch r := rng.Intn(10); {
 				case r < 5: // overwrite / insert (one in six with an EMPTY value: a presence-only key)
 					v := fmt.Sprintf("v%d-%d", b, rng.Intn(1000))
@@ -224,6 +262,7 @@ func TestVerifBoundedC08(t *testing.T) {
 		trace := append([]string(nil), verifTrace...)
 		verifSpec = nil
 		scan := verifLastScan
+		gets := verifLastGets
 		// reference: the final state in ONE block on a fresh store (sorted for reproducibility)
 		var keys []string
 		for k := range final {
@@ -238,8 +277,26 @@ func TestVerifBoundedC08(t *testing.T) {
 		evals++
 		// the root is the commitment of the state AS STORED: what a full scan of the committed state returns is exactly
 		// the key/value set the history ends in (presence-only keys included)
-		scanOK := len(scan) == len(final)
+		// (with parent / child keys the scan is replaced by point reads: forward iteration over such keys is incomplete on
+		// the unchanged tree - known finding F8 under C10 - and must not be reported here)
+		if nested {
+			for k, got := range gets {
+				want, ok := final[k]
+				if ok && want == verifEmpty {
+					continue // a presence-only key reads like an absent one
+				}
+				if (ok && string(got) != want) || (!ok && len(got) != 0) {
+					viol++
+					fmt.Printf("BOUNDED-VIOLATION kind=stateget history=%d seed=%d key=%q: the committed state holds %q, the history ends in %q (present=%v) - the committed root does not commit to the state as stored; trace=%v\n", h, seed, k, got, want, ok, trace)
+					break
+				}
+			}
+		}
+		scanOK := nested || len(scan) == len(final)
 		for k, v := range final {
+			if nested {
+				break
+			}
 			want := v
 			if v == verifEmpty {
 				want = ""
